@@ -446,3 +446,12 @@ theorem L3_count_prefix_lt (B : ℕ → Prop) [DecidablePred B] (s i : ℕ) (h :
   omega
 
 end PyvcLemmas
+
+namespace PyvcLemmas
+
+/-- the sum of the negated terms is the negated sum (antisymmetry of the paired T-test) -/
+theorem L4_sum_neg (A : ℕ → ℝ) (n : ℕ) : SUM (fun i => -A i) n = -SUM A n := by
+  unfold SUM
+  simp [Finset.sum_neg_distrib]
+
+end PyvcLemmas
